@@ -250,9 +250,10 @@ func parseEntries(body []byte) ([]stored, error) {
 	}
 	// exactly one JSON value: a client's decoder stops after the first one, so anything
 	// in front of or behind the object would go unnoticed there
+	end := int(d.InputOffset())
 	var more json.RawMessage
 	if err := d.Decode(&more); err != io.EOF {
-		return nil, fmt.Errorf("%d bytes of further data after the JSON object (%v)", len(body)-int(d.InputOffset()), err)
+		return nil, fmt.Errorf("%d bytes of further data after the first JSON value", len(body)-end)
 	}
 	var out []stored
 	for i, e := range w.Entries {
